@@ -30,6 +30,7 @@ var (
 	fFpOut   = flag.String("sim.fpout", "", "write distinct non-trivial fingerprints (binary uint64) here")
 	fMerge   = flag.String("sim.merge", "", "comma separated fingerprint files: print the number of distinct values")
 	fOnly    = flag.String("sim.only", "", "comma separated violation classes this check reports (others are counted as observations)")
+	fProgress = flag.String("sim.progress", "", "file that always holds the index of the run in progress (crash attribution)")
 	fHashes  = flag.String("sim.hashes", "", "write one trace hash per run to this file (determinism self-test)")
 	fRetries = flag.Int("sim.retries", 1, "replay attempts (self-certifying classes may need several)")
 )
@@ -212,7 +213,14 @@ func TestSim(t *testing.T) {
 	seenClass := map[string]bool{}
 	cases := map[string]struct{}{}
 	var hashes strings.Builder
+	var progressFile *os.File
+	if *fProgress != "" {
+		progressFile, _ = os.Create(*fProgress)
+	}
 	for i := *fFrom; i < *fFrom+*fCount; i++ {
+		if progressFile != nil {
+			_, _ = progressFile.WriteAt([]byte(fmt.Sprintf("%-20d", i)), 0)
+		}
 		if *fBudget > 0 && time.Since(start) > *fBudget {
 			break
 		}
